@@ -5,12 +5,29 @@ import json, sys
 ALL = ["C%02d" % i for i in range(1, 21)]
 
 # id -> (level category, level text, level note, technique, design ref)
+TECH = 'symbolic execution of go/ssa (real code) with SMT-decided assertions (z3; z3 5.1/cvc5 diff in thorough tier), differential against an independent reference; counterexamples replayed natively'
+TRUST = "Trusted: the engine's SSA semantics (validated on every run by replaying solver models of the witness points against the native build), z3 (cross-checked with z3 5.1 and cvc5 in the thorough tier), the environment models listed in the evidence 'assumptions'."
+
+def C(text, note, ref):
+    return ("model_checking", text, note + " " + TRUST, TECH, ref)
+
 CLAIMED = {
- "C03": ("model_checking",
-         "Bounded symbolic model checking of buffer.Reader's real code (go/ssa -> SMT): for every client byte stream of up to 5+N bytes, every declared length, every segmentation (symbolic short reads) and every leftover pre-state, ReadTypedMsg equals an independent reference framing function; for every body of up to N bytes and every sequence of accessor calls, the accessors equal an independent cursor and never panic. The solver decides every assertion for all inputs in the bound; counterexamples are replayed natively before being reported.",
-         "Bounds: quick N=3/5, thorough N=5/6, limit L=8, 2-3 accessor calls. Trusted: bufio.Reader internals below the BufferedReader interface, z3 (cross-checked on z3 5.1/cvc5 in the thorough tier), the engine's SSA semantics (validated by replaying witness models natively).",
-         "symbolic execution of go/ssa with SMT-decided assertions (z3), differential against a reference decoder",
-         "DESIGN.md §7 C03"),
+ "C02": C("Bounded symbolic model checking of buffer.Writer and every backend message builder against an independent strict grammar (type, length = 4+body, body parses exactly): framing kernel under arbitrary operation sequences and transport write failures, ErrorResponse for solver-chosen decorator nestings, RowDescription/DataRow/CopyInResponse/CommandComplete for symbolic columns, values and tags, and the same grammar applied to the whole capture of the session-level harnesses with symbolic client input.",
+          "Bounds: op sequences <= 4 (quick) / 5, decorator depth 2/3, <= 2 columns, strings <= 2 bytes, histories K=2/3. User-supplied text is assumed NUL-free; pgx codecs are modelled by contract.", "DESIGN.md §7 C02"),
+ "C03": C("Bounded symbolic model checking of buffer.Reader's real code: for every client byte stream of up to 5+N bytes, every declared length, every segmentation (symbolic short reads) and every leftover pre-state, ReadTypedMsg equals an independent reference framing function; for every body of up to N bytes and every sequence of accessor calls, the accessors equal an independent cursor and never panic.",
+          "Bounds: N=3/5 (framing), N=5/6 with 2/3 accessor calls, limit L=8. bufio.Reader internals below the BufferedReader interface are trusted in H03a.", "DESIGN.md §7 C03"),
+ "C05": C("One inductive step of the result writer from an arbitrary pre-state (closed flag, any 64-bit counter, 0-2 columns) for every operation, which covers operation sequences of any length; plus handleSimpleQuery with a symbolic query text and solver-chosen parser/statement behaviours against a reference cycle automaton (ordered results, single ErrorResponse stops later statements, exactly one ReadyForQuery last, blank query bypasses the parser).",
+          "Bounds: query text <= 2/3 bytes (ASCII), parser returns error/0/1/2 statements, statement scripts {row+Complete, error, Complete, row+error}. pgx codecs modelled by contract.", "DESIGN.md §7 C05"),
+ "C06": C("Histories of K extended-query messages over known and unknown names run through the real command loop body; a black-box reference automaton written from the protocol text decides each step from client messages, captured replies and the callback trace: designated reply per message, exactly one ReadyForQuery per Sync and none otherwise, one ErrorResponse then silence and no callbacks until Sync, unknown names are errors and the connection stays up.",
+          "Bounds: K=3 (quick) / 4 (thorough, with simple Query interleaved), names from {'', 'a'}, well-formed bodies, parser {error, one statement}, statement {row+Complete, error}.", "DESIGN.md §7 C06"),
+ "C09": C("Columns.Define/Write and Column.Write for 1-2(3) columns with solver-chosen formats and source values from the codec-contract menu (untyped nil, nil pointer, invalid nullable, string, []byte, *string, unencodable): the emitted DataRow equals the reference framing, every NULL is -1 without payload, non-NULL empty is length 0, unencodable and wrong-arity rows emit nothing.",
+          "The clause 'for every supported column type, decoded by an independent decoder' is decided only up to 'what the codec returns is what is framed': pgx's reflection-planned codecs are dependency code and cannot be encoded (stated not-applicable part). Bounds: <= 2/3 columns, values <= 1/2 bytes.", "DESIGN.md §7 C09"),
+ "C10": C("The limit arithmetic is decided over the FULL range: every limit 1..2^31-1 and every 32-bit declared length in one solver query per assertion (size-exceeded iff declared-4 > L or declared < 4; header-only read; no allocation; error carries size and limit), NewReader for all 2^64 settings, Slurp for every limit/size/segmentation in the bound, and sessions with an oversized message followed by a normal one.",
+          "Bounds: H10a continues past the check only for bodies <= N=3/6; Slurp L<=2/3, size <= 3L+2; 64-bit int.", "DESIGN.md §7 C10"),
+ "C17": C("The error value is built by a solver-chosen nesting of D decorators (code, severity, hint, detail, source, constraint, fmt %w wrapping, none) with symbolic payload bytes; the emitted ErrorResponse is parsed by an independent strict grammar and compared field for field with a reference walking the same choices (outermost wins, defaults ERROR/XXUUU, each field at most once, line as decimal text); nil error -> FATAL/XX000.",
+          "Bounds: D=2/3, payloads 1-2 non-NUL bytes, source line 0..999. strconv.Itoa and fmt.Errorf are modelled.", "DESIGN.md §7 C17"),
+ "C18": C("H18a is a one-step inductive lemma on the reader's message window with a fully symbolic header (offset, length, capacity and requested size all range over 0..2^31): the next window never overlaps bytes exposed through an earlier one, so data handed to callbacks is never overwritten, for histories of any length.",
+          "H18a touches no elements (header-only). Retained-view harness H18b is registered when built.", "DESIGN.md §7 C18"),
 }
 
 def main():
